@@ -412,6 +412,59 @@ pub fn prop(tier: Tier, _seed: u64) -> Prop {
         ctx.class(mix(mix(d[0] as u64 + 90, d[3] as u64), mix((w % 8) as u64, (d[4] * 8 + off) as u64)));
     }));
 
+    // ---- (4b) uniform runs: a run of L identical special pixels at offset O inside filler pixels.
+    //      Fast paths for "all opaque" / "all zero" / "all equal" vector chunks live here.
+    let specials: [(f64, f64); 5] = [(0.0, 0.0), (1.0, 1.0), (0.0, 1.0), (0.7, 0.0), (0.5, 0.5)]; // (colour, alpha) as fractions of max
+    let dims4b = vec![6u64, bes.len() as u64, 4, 2];
+    let (d4b, b4b) = (dims4b.clone(), bes.clone());
+    p.spaces.push(Space::new("uniform runs: run length 1..24 x offset 0..15 x special pixel pairs (zero, opaque, transparent-with-colour, half) x 6 alpha types x back-end x entry x op", product(&dims4b), move |idx, ctx| {
+        let mut d = [0usize; 4];
+        decode(idx, &d4b, &mut d);
+        let (pt, be, entry, op) = (ALPHA_PT[d[0]], b4b[d[1]], ENTRIES[d[2]], if d[3] == 0 { Op::Mul } else { Op::Div });
+        let ck = pt.ck();
+        let nc = pt.ncomp();
+        let m = if ck == CK::F32 { 1.0 } else { ck.max() };
+        let val = |f: f64| if ck.is_int() { (f * m).round() } else { f };
+        ctx.sample(|| json!({"type": format!("{:?}", pt), "backend": format!("{:?}", be), "entry": format!("{:?}", entry), "op": format!("{:?}", op), "rows": "every (run pixel A, filler pixel B, length 1..24, offset 0..15), width 48"}));
+        if ctx.describe_only {
+            return;
+        }
+        let w = 48u32;
+        let mut rows: Vec<(usize, usize, u32, u32)> = vec![];
+        for a in 0..5 {
+            for b in 0..5 {
+                if a == b {
+                    continue;
+                }
+                for len in 1..=24u32 {
+                    for off in 0..16u32 {
+                        rows.push((a, b, len, off));
+                    }
+                }
+            }
+        }
+        let h = rows.len() as u32;
+        let src = Raw::from_fn(pt, w, h, |x, y, c| {
+            let (a, b, len, off) = rows[y as usize];
+            let (col, al) = if x >= off && x < off + len { specials[a] } else { specials[b] };
+            if c == nc - 1 {
+                val(al)
+            } else {
+                val(col) - if ck.is_int() && c == 1 && col > 0.0 { 1.0 } else { 0.0 }
+            }
+        });
+        match run_op(op, entry, be, &src) {
+            Ok(out) => {
+                judge_image(ctx, op, entry, be, &src, &out);
+                ctx.outcome(fnv(out.bytes()));
+            }
+            Err(e) => ctx.violation(format!("C06|{:?}|{:?}|rejected", op, pt), || json!({"err": e})),
+        }
+        ctx.ops += (w * h) as u64;
+        ctx.nontrivial += rows.len() as u64;
+        ctx.class(mix(mix(d[0] as u64 + 700, d[1] as u64), (d[2] * 2 + d[3]) as u64));
+    }));
+
     // ---- (5) rejections
     let b7 = bes.clone();
     p.spaces.push(Space::new("rejections: non-alpha types, size and type mismatch", 13 * 13 * 2 * 4, move |idx, ctx| {
